@@ -150,6 +150,18 @@ def run(ctx):
             sig = "snake-recursion-limit" if "Recursion" in r and ln > 127 * 900 else "snake-roundtrip"
             ctx.fail(sig, f"snake string of {ln} bytes: {r}", {"snake_len": ln})
     ctx.extra["snake_lengths"] = snake_lens
+
+    # generic oracles of harness/bs.py on the implementation: refused stores (capacity never exceeded; the operations of the
+    # heap model and the primitive writers leave no trace), over-reads through every consuming reader, views
+    for name, fn, cnt in (("refused-store", bs.refused_store_case, ctx.n(300, 3000)), ("over-read", bs.overread_case, ctx.n(150, 1500)),
+                          ("views", bs.views_case, ctx.n(20, 200)),
+                          ("shared-state", bs.shared_state_case, ctx.n(40, 400))):
+        for i in range(cnt):
+            r = core.call_impl(lambda _: fn(i), None)
+            if r != "ok":
+                ctx.fail(name + ":" + r.split(":")[0].split(" (")[0][:60], r, {"generic": name, "seed": i})
+                break
+        ctx.extra["generic_" + name.replace("-", "_") + "_cases"] = cnt
     # the zero-length external address (valid addr_extern$01 len=0)
     r = core.call_impl(lambda _: bs.py_rt(([(-1, "", [])], [("addr", "ext", 0, 0)])), None)
     if not r.startswith("ok"):
@@ -170,6 +182,10 @@ def snake_rt(ln):
 
 def replay(ctx, obj):
     c = obj["case"]
+    if "generic" in c:
+        fn = {"refused-store": bs.refused_store_case, "over-read": bs.overread_case, "views": bs.views_case, "shared-state": bs.shared_state_case}[c["generic"]]
+        r = core.call_impl(lambda _: fn(c["seed"]), None)
+        return None if r == "ok" else r
     if "snake_len" in c:
         r = core.call_impl(lambda _: snake_rt(c["snake_len"]), None, timeout_s=120)
         return None if r == "ok" else f"snake string of {c['snake_len']} bytes: {r}"
